@@ -130,12 +130,12 @@ def lhs_case(rng, exact):
     if crit in ('correlation', 'corr') and (nres < 3 or total < 2):
         crit = None
     return {'kind': 'lhs', 'api': api, 'gen': 'lhs', 'dvs': dvs, 'exact': exact, 'samples': samples,
-            'criterion': crit, 'iterations': rng.choice([2, 5]), 'seed': rng.choice([None, 0, 1, 7, 12345])}
+            'criterion': crit, 'iterations': rng.choice([2, 5]), 'seed': rng.choice([None, 0, 1, 7, 12345, 42])}
 
 
 def uniform_case(rng):
     c = lhs_case(rng, False)
-    c.update({'kind': 'uniform', 'gen': 'uniform', 'samples': rng.randrange(0, 12), 'seed': rng.choice([None, 0, 3, 99])})
+    c.update({'kind': 'uniform', 'gen': 'uniform', 'samples': rng.randrange(0, 12), 'seed': rng.choice([None, 0, 3, 99, 7])})
     return c
 
 
@@ -205,7 +205,10 @@ class C23(Spec):
             'bounds); uniform; DOEDriver runs with indices, units and scaling on a recording component')
     assumptions = ['pyDOE designs (gsd, pbdesign, bbdesign, lhs) are external: their index / unit matrices are captured '
                    'from the run and checked (bounds, stratification), not trusted',
-                   'NumPy PRNG reproducibility is checked (same seed twice), not proved',
+                   'NumPy PRNG reproducibility is checked, not proved: for every seeded generator (uniform, Latin hypercube, both APIs) the '
+                   'same cases must come from construct-and-run repeated, a second same-seed generator, two same-seed generators '
+                   'built before either is consumed, the same object consumed twice - with other np.random traffic in between - '
+                   'and from DOEDriver run twice',
                    'a Latin-hypercube value mapped by lower + s (upper - lower) in binary64 is compared with the exact '
                    'rational value within 4 ulp of the bound magnitude when the bounds are not exact-friendly',
                    'single process (no run_parallel), no discrete design variables']
